@@ -45,6 +45,9 @@ pub struct RefErr {
     pub code: i16,
     pub msg: Vec<u8>,
     pub ext: Option<Vec<u8>>,
+    /// only the error *class* is pinned by the properties (syntax / data-type faults: "a command
+    /// error"); the implementation's actual error of that class is adopted by the model
+    pub class_only: bool,
 }
 
 impl RefErr {
@@ -53,7 +56,12 @@ impl RefErr {
             code: e.get_code(),
             msg: e.get_message().to_vec(),
             ext: e.get_extended().map(|x| x.to_vec()),
+            class_only: false,
         }
+    }
+    pub fn any_of_class(mut self) -> RefErr {
+        self.class_only = true;
+        self
     }
     /// Standard error by number; the message text is the library's table (C14 checks the table).
     pub fn std(code: i16) -> RefErr {
@@ -62,11 +70,13 @@ impl RefErr {
                 code,
                 msg: e.get_message().to_vec(),
                 ext: None,
+                class_only: false,
             },
             None => RefErr {
                 code,
                 msg: b"Custom error".to_vec(),
                 ext: None,
+                class_only: false,
             },
         }
     }
@@ -582,11 +592,35 @@ impl<Q: HasTree> Lockstep for DevModel<Q> {
             key: key_of(kind, act),
             what,
         };
-        let exp = r.apply(act);
-        match act {
-            Act::Msg { mav, .. } => {
+        // run the implementation first: where the properties pin only the class of a library-raised
+        // error, the model adopts the actual error of that class
+        let mut impl_run: Option<(scpi::error::Result<()>, Vec<u8>)> = None;
+        let adjusted: Act;
+        let act_for_model: &Act = match act {
+            Act::Msg { units, mav } => {
                 let text = act.text();
                 let (res, out) = run_msg(sys, &text, *mav);
+                let mut units2 = units.clone();
+                if let Err(e) = &res {
+                    if let Some(u) = units2.iter_mut().find(|u| matches!(u.sem, U::Fail(_))) {
+                        if let U::Fail(want) = &u.sem {
+                            if want.class_only && esr_bit_of(want.code) == esr_bit_of(e.get_code()) {
+                                u.sem = U::Fail(RefErr::of(e));
+                            }
+                        }
+                    }
+                }
+                impl_run = Some((res, out));
+                adjusted = Act::Msg { units: units2, mav: *mav };
+                &adjusted
+            }
+            other => other,
+        };
+        let exp = r.apply(act_for_model);
+        match act {
+            Act::Msg { .. } => {
+                let text = act.text();
+                let (res, out) = impl_run.take().unwrap();
                 let exp = exp.unwrap();
                 match (&res, &exp.result) {
                     (Ok(()), Ok(())) => {
